@@ -1,6 +1,6 @@
 """C02  hunk placement obeys offset / anchoring / fuzz rules (DESIGN §4 C02)."""
 from .. import cfg, dataflow as df, guards, patterns as pt
-from ..common import calls_named
+from ..common import named_input, calls_named
 from ..facts import callee_of
 
 LEVEL = "other"
@@ -247,7 +247,7 @@ def r2(ck, rule="C02-R2"):
                 for dd in df.defs_through_copies(tah, l):
                     if dd[1] in reg:
                         e = df.rvalue_expr(tah, dd[3]["rv"]) if dd[0] == "stmt" else df.call_expr(tah, dd[2])
-                        uses_off = df.mentions(e, lambda x: isinstance(x, tuple) and x[0] == "param" and x[2] == "last_hunk_offset")
+                        uses_off = df.mentions(e, lambda x: named_input(x, "last_hunk_offset"))
                         if var in ("Start", "End"):
                             ck.require(not uses_off, rule, "%s-anchored first guess ignores the previous offset" % var,
                                        "target line for a %s hunk is %s" % (var, df.show(e, 100)), tah.where(dd[3]) if dd[0] == "stmt" else tah.where())
@@ -622,7 +622,7 @@ def r4_matches_contract(ck, rule, tah, T, needle, ctx):
     if isinstance(T, tuple) and T[0] == "local" and psw:
         stated = lambda v: v["Srem"] if v["dir"] == "Forward" else v["Sadd"]
         want = {"Start": lambda v, r: stated(v), "Middle": lambda v, r: stated(v) + v["O"], "End": lambda v, r: v["n"] - r}
-        m2 = seqmodel.Model(INTS + [("O", lambda x: isinstance(x, tuple) and x[0] == "param" and x[2] == "last_hunk_offset"),
+        m2 = seqmodel.Model(INTS + [("O", lambda x: named_input(x, "last_hunk_offset")),
                                     ("Srem", lambda x: fpath(x, "hunk", "remove", "target_line")),
                                     ("Sadd", lambda x: fpath(x, "hunk", "add", "target_line"))],
                             prog=ck.prog, seqsyms=SEQS, enumsyms=ENUMS)
